@@ -147,7 +147,7 @@ def make_harness(f, nargs, mutate):
             return got == exp
 
         def pre(s):
-            return small(s)
+            return small(s) and (len(s) <= 2 or f is not _lower)
     else:
         def h(s: str, n: int) -> bool:
             got = f(s, n)
@@ -162,7 +162,7 @@ def make_harness(f, nargs, mutate):
     return h, pre
 
 
-def analyze(fn, pre, timeout=40.0):
+def analyze(fn, pre, timeout=200.0):
     sig = inspect.signature(fn, eval_str=True)
     names = list(sig.parameters)
     cap = {}
@@ -174,7 +174,7 @@ def analyze(fn, pre, timeout=40.0):
     cond = Conditions(fn=fn, src_fn=fn, pre=[ConditionExpr(PRECONDITION, lambda ns: pre(**{k: ns[k] for k in names}), __file__, 1, "pre")],
                       post=[ConditionExpr(POSTCONDITION, lambda ns: bool(ns["__return__"]), __file__, 1, "post")], raises=frozenset(), sig=sig,
                       mutable_args=None, fn_syntax_messages=[], counterexample_description_maker=describe)
-    opts = DEFAULT_OPTIONS.overlay(per_condition_timeout=timeout, per_path_timeout=10.0, stats=collections.Counter())
+    opts = DEFAULT_OPTIONS.overlay(per_condition_timeout=timeout, per_path_timeout=30.0, stats=collections.Counter())
     opts.deadline = time.process_time() + timeout
     with condition_parser(opts.analysis_kind):
         an = analyze_calltree(opts, cond)
